@@ -555,6 +555,10 @@ func (i *Install) availableName() error {
 	}
 
 	h, err := i.cfg.Releases.History(start)
+	if err != nil && !errors.Is(err, driver.ErrReleaseNotFound) {
+		// the history could not be read: that is not "no such release"
+		return err
+	}
 	if err != nil || len(h) < 1 {
 		return nil
 	}
@@ -597,6 +601,10 @@ func (i *Install) recordRelease(r *release.Release) error {
 // This allows us to reuse names by superseding an existing release with a new one
 func (i *Install) replaceRelease(rel *release.Release) error {
 	hist, err := i.cfg.Releases.History(rel.Name)
+	if err != nil && !errors.Is(err, driver.ErrReleaseNotFound) {
+		// the history could not be read: that is not "no such release"
+		return err
+	}
 	if err != nil || len(hist) == 0 {
 		// No releases exist for this name, so we can return early
 		return nil
